@@ -213,20 +213,61 @@ func c06Shape(c *Ctx, m *Module, parse *ssa.Function) {
 			}
 		}
 	}
-	// rejections: each return of an error in Parse is classified by the nearest deciding fact
+	// rejections: the path condition of every error return of Parse must IMPLY one of the tabled
+	// reasons. The condition is taken relative to the nearest dominator for which the
+	// implication holds (any path to the return passes through it), so the nesting, merging or
+	// splitting of the guards does not matter.
 	reasons := map[string]bool{}
 	for _, b := range parse.Blocks {
 		ret, ok := b.Instrs[len(b.Instrs)-1].(*ssa.Return)
 		if !ok || isNilConst(ret.Results[1]) {
 			continue
 		}
-		reason := rejectReason(b)
-		reasons[reason] = true
-		_, known := allowedRejects[reason]
-		r.Check("C06.faithful", "Parse/rejection: "+reason, m.Pos(ret.Pos()), known,
-			"Parse may reject only for the tabled reasons (a well-formed file must decode); unrecognised deciding condition: "+reason)
+		held := false
+		detail := "unconditional"
+		var used []string
+		for d, k := b.Idom(), 0; d != nil && k < 8 && !held; d, k = d.Idom(), k+1 {
+			fb := newFormulaBuilder()
+			fb.root = d
+			fb.namer = func(v ssa.Value) (string, bool) {
+				if lk := membershipTest(v); lk != nil {
+					return "visited(" + describe(lk.Index) + ")", true
+				}
+				return "", false
+			}
+			F := fb.reach(b)
+			var lits []BExpr
+			var why []string
+			seenLit := map[string]bool{}
+			leaves(F, func(a BExpr) {
+				lit, reason := c06AllowedReject(a)
+				if lit != nil && !seenLit[lit.String()] {
+					seenLit[lit.String()] = true
+					lits = append(lits, lit)
+					why = append(why, reason)
+				}
+			})
+			detail = "path condition " + shortDesc(F.String())
+			if len(lits) == 0 {
+				continue
+			}
+			if ok, _, _ := implies(F, bOr{lits}); ok {
+				held = true
+				// essential reasons: those without which the implication fails
+				for i := range lits {
+					rest := append(append([]BExpr{}, lits[:i]...), lits[i+1:]...)
+					if ok2, _, _ := implies(F, bOr{rest}); !ok2 || len(lits) == 1 {
+						used = append(used, why[i])
+						reasons[why[i]] = true
+					}
+				}
+			}
+		}
+		sort.Strings(used)
+		r.Check("C06.faithful", fmt.Sprintf("Parse/rejection #%d is for a tabled reason", len(reasons)*0+retOrdinal(parse, ret)), m.Pos(ret.Pos()), held,
+			"Parse may reject only for the tabled reasons (a well-formed file must decode): "+strings.Join(used, " | ")+"; "+detail)
 	}
-	r.Check("C06.faithful", "Parse/rejection reasons enumerated", m.Pos(parse.Pos()), len(reasons) >= 4, fmt.Sprintf("%d distinct reasons", len(reasons)))
+	r.Check("C06.faithful", "Parse/rejection reasons enumerated", m.Pos(parse.Pos()), len(reasons) >= 4, fmt.Sprintf("%d distinct reasons: %v", len(reasons), keysSorted(reasons)))
 	// metadata: every non-empty line must contribute its key/value
 	for _, in := range instrsOf(parse) {
 		if mu, ok := in.(*ssa.MapUpdate); ok {
@@ -248,41 +289,49 @@ var allowedRejects = map[string]string{
 	"duplicate/cyclic record (visited set hit)": "same raw name seen twice",
 }
 
-// rejectReason names the condition that decided the rejection: the innermost
-// dominating fact of the returning block.
-func rejectReason(b *ssa.BasicBlock) string {
-	facts := blockFacts(b)
-	if len(facts) == 0 {
-		return "unconditional"
+// c06AllowedReject classifies an atom of a path condition: the literal (atom or its negation)
+// that is a tabled reason for rejecting a file, and the reason.
+func c06AllowedReject(a BExpr) (BExpr, string) {
+	switch x := a.(type) {
+	case bOrd:
+		d := x.A + " ? " + x.B
+		switch {
+		case strings.Contains(d, "builtin:len(param:data)") && strings.Contains(d, "16384"):
+			if x.A == "16384" {
+				return mkOrd(x.A, ">", x.B), "len(data) < pageSize"
+			}
+			return mkOrd(x.A, "<", x.B), "len(data) < pageSize"
+		case strings.Contains(d, "*conv<*uint32>"):
+			// a comparison of the header-length word, as the code wrote it
+			return a, "header length out of range"
+		}
+	case bBool:
+		switch {
+		case strings.HasPrefix(x.A, "bytes.HasPrefix(param:data"):
+			return bNot{a}, "!HasPrefix(data, hdrPrefix)"
+		case strings.HasPrefix(x.A, "strings.Cut(") && strings.HasSuffix(x.A, `, ": ")#2`):
+			return bNot{a}, "metadata line without ': '"
+		case strings.Contains(x.A, ").entryAt(") && strings.HasSuffix(x.A, "#3"):
+			return bNot{a}, "entryAt !ok"
+		case strings.HasPrefix(x.A, "visited("):
+			return a, "duplicate/cyclic record (visited set hit)"
+		}
 	}
-	f := facts[0]
-	d := describe(f.Cond)
-	switch {
-	case strings.Contains(d, "builtin:len(param:data) < 16384") && f.Pol:
-		return "len(data) < pageSize"
-	case strings.HasPrefix(d, "bytes.HasPrefix(param:data") && !f.Pol:
-		return "!HasPrefix(data, hdrPrefix)"
-	case strings.Contains(d, "builtin:len(param:data) < 16384") && !f.Pol:
-		// second return inside the first if: wrong header
-		return "!HasPrefix(data, hdrPrefix)"
-	case (strings.Contains(d, "> 16384") || strings.Contains(d, "conv<uint32>(")) && strings.Contains(d, "*conv<*uint32>") && f.Pol:
-		return "header length out of range"
-	case strings.HasPrefix(d, `strings.Cut(`) && strings.HasSuffix(d, `, ": ")#2`) && !f.Pol:
-		return "metadata line without ': '"
-	case strings.HasSuffix(d, "entryAt(alloc:complit#"+allocSuffix(d)) && false:
-		return ""
+	return nil, ""
+}
+
+// retOrdinal numbers the returns of fn in block order.
+func retOrdinal(fn *ssa.Function, ret *ssa.Return) int {
+	n := 0
+	for _, b := range fn.Blocks {
+		if rt, ok := b.Instrs[len(b.Instrs)-1].(*ssa.Return); ok {
+			n++
+			if rt == ret {
+				return n
+			}
+		}
 	}
-	if strings.Contains(d, ").entryAt(") && strings.HasSuffix(d, "#3") && !f.Pol {
-		return "entryAt !ok"
-	}
-	if lk := membershipTest(f.Cond); lk != nil && f.Pol {
-		return "duplicate/cyclic record (visited set hit)"
-	}
-	pol := ""
-	if !f.Pol {
-		pol = "!"
-	}
-	return pol + shortDesc(d)
+	return 0
 }
 
 func allocSuffix(string) string { return "" }
